@@ -5,7 +5,7 @@ import vtlib
 from checks import synccheck
 
 META = dict(
-    text='TLC exhausts the wait / notify protocol at critical-section granularity (CondVar.tla: 2 waiters + 2 notifiers, mutex or spinlock as the user lock, timeouts, notify with and without the lock; waiter is linked into the wait queue BEFORE the user lock is released on the next stack) for NoLostNotification, NotifyOneExact, NotifyAllCoversWaiters and ReturnsWithLock; the same module with the unlock moved before the enqueue must produce a lost notification (anti-vacuity). Recorded executions of the real condition_variable (random programs of wait(lock, timeout 200us..inf) / notify_one / notify_all with and without the lock held, mutex and spinlock flavours, 1-3 vCPUs) are validated by TLC against the abstract object (lock owner + waiting set): release-and-wait is one instant, notify_one returns a thread iff the waiting set was non-empty and removes exactly that thread, notify_all covers everyone waiting when it began, wait() returns holding the lock, 0 iff notified, -1/ETIMEDOUT only after the deadline; threads found asleep must still be in the waiting set.',
+    text='TLC exhausts the wait / notify protocol at critical-section granularity (CondVar.tla: 2 waiters + 2 notifiers, mutex or spinlock as the user lock, timeouts, notify with and without the lock; waiter is linked into the wait queue BEFORE the user lock is released on the next stack) for NoLostNotification, NotifyOneExact, NotifyAllCoversWaiters and ReturnsWithLock; the same module with the unlock moved before the enqueue must produce a lost notification (anti-vacuity). Recorded executions of the real condition_variable (random programs of wait(lock, timeout 200us..inf) / notify_one / notify_all with and without the lock held, mutex and spinlock flavours, 1-3 vCPUs) are validated by TLC against the abstract object (lock owner + waiting set): release-and-wait is one instant, notify_one returns a thread iff the waiting set was non-empty and removes exactly that thread, notify_all covers everyone waiting when it began, wait() returns holding the lock, 0 iff notified, -1/ETIMEDOUT only after the deadline; threads found asleep must still be in the waiting set. Scripted one-vCPU sequences (conductor) are judged the same way. Tier B: in further executions the guarded hook events are checked for the protocol order itself: the waiter is linked into the condition variable\'s queue (hSleep) before its mutex is released (hMtxUnlock); an unlock in between is rejected on any execution that takes such a path, whether or not a notifier ran in the gap.',
     note='TLC results hold for the stated populations; conformance samples schedules. Elapsed time is measured on the runtime clock around the call with a freshly updated clock.',
     technique='TLA+ critical-section model checked exhaustively by TLC (with a broken variant as witness); TLC trace validation against the abstract condition variable of executions recorded from the real code',
     design='3/C03')
@@ -13,6 +13,32 @@ META = dict(
 MODES_Q = [('cv', 150), ('cvspin', 120), ('ccv', 1000), ('ccvspin', 600)]
 MODES_T = [('cv', 2500), ('cvspin', 2000), ('ccv', 25000), ('ccvspin', 15000)]
 MC = [('MC_CondVar', 'MC_CondVar_mutex.cfg', 900), ('MC_CondVar', 'MC_CondVar_spin.cfg', 900)]
+
+
+DROP_B = ('hPreSwitch', 'hDrain', 'hHeap', 'hSteal', 'Script')
+
+
+def run_tier_b(ctx):
+    """Tier B: order of the hook events of wait(mutex): the waiter is linked into the queue before its mutex is released."""
+    from checks import tracecheck
+    h = ctx.build_harness('h_sync')
+    q = ctx.tier == 'quick'
+    n_exec, n_waits = 0, 0
+    for prim, execs, vc in [('cv', 120 if q else 3000, 3), ('ccv', 500 if q else 15000, 1)]:
+        trace = f'{ctx.out}/{prim}_B.ndjson'
+        rc, o, e = ctx.run_harness(h, ['--prim', prim, '--execs', execs, '--seed', ctx.seed + 300, '--vcpus', vc, '--threads', 4,
+                                        '--ops', 5, '--hooks', '--out', trace], timeout=1500, ok_rcs=(0, 4))
+        if rc == 124:
+            raise vtlib.InfraError(f'h_sync --prim {prim} --hooks timed out')
+        rows = [r for r in vtlib.read_ndjson(trace) if r['e'] not in DROP_B]
+        n_waits += sum(1 for r in rows if r['e'] == 'hSleep' and r.get('q') == 201)
+        acc, rejs, n = tracecheck.validate(ctx, 'Trace_CvB', 'Trace_CvB.cfg', rows, tagbase=f'cvB_{prim}', chunk_events=6000)
+        n_exec += n
+        tracecheck.report(ctx, rejs, f'{prim} (protocol level)', name=f'cvB_{prim}')
+    if not n_waits:
+        raise vtlib.InfraError('no condition-variable enqueue events recorded: are the guarded hooks compiled in?')
+    ctx.extra['tier_b_executions'] = n_exec
+    ctx.extra['tier_b_cv_enqueues'] = n_waits
 
 
 def run(ctx):
@@ -27,6 +53,7 @@ def run(ctx):
             raise vtlib.InfraError('CondVar.tla: the unlock-before-enqueue variant is not detected (vacuous model)')
     ctx.build_lib()
     synccheck.run_modes(ctx, MODES_Q if ctx.tier == 'quick' else MODES_T, 'Trace_CvA', 'Trace_CvA.cfg')
+    run_tier_b(ctx)
     return ctx.finish()
 
 
